@@ -115,8 +115,8 @@ theorem FollowsN.pos_sub {n : Nat} {s t : LexSt} (h : FollowsN n s t) : t.pos - 
 theorem Content.refl (tabs : Bool) (s : LexSt) : Content tabs s s [] := by
   unfold Content; simpa using Den.nil _
 
-theorem Content.trans {tabs : Bool} {s t u : LexSt} {o1 o2 : List Char}
-    (f1 : Follows s t) (f2 : Follows t u) (c1 : Content tabs s t o1) (c2 : Content tabs t u o2) :
+theorem Content.trans_moves {tabs : Bool} {s t u : LexSt} {o1 o2 : List Char}
+    (f1 : Moves s t) (f2 : Moves t u) (c1 : Content tabs s t o1) (c2 : Content tabs t u o2) :
     Content tabs s u (o1 ++ o2) := by
   obtain ⟨n, f1⟩ := f1
   obtain ⟨m, f2⟩ := f2
@@ -127,8 +127,12 @@ theorem Content.trans {tabs : Bool} {s t u : LexSt} {o1 o2 : List Char}
   have hsplit : s.rest.take (n + m) = s.rest.take n ++ (s.rest.drop n).take m := by rw [List.take_add]
   rw [hsplit]
   apply Den.append c1
-  obtain ⟨_, hrest, _, hpos, _⟩ := f1
+  obtain ⟨_, hrest, _, hpos⟩ := f1
   rw [← hpos, ← hrest]; exact c2
+
+theorem Content.trans {tabs : Bool} {s t u : LexSt} {o1 o2 : List Char}
+    (f1 : Follows s t) (f2 : Follows t u) (c1 : Content tabs s t o1) (c2 : Content tabs t u o2) :
+    Content tabs s u (o1 ++ o2) := Content.trans_moves f1.moves f2.moves c1 c2
 
 /-- a state change that consumes nothing (diagnostics only) has empty content -/
 theorem Content.of_same_pos {tabs : Bool} {s t : LexSt} (h : t.pos = s.pos) : Content tabs s t [] := by
